@@ -163,6 +163,11 @@ def run(ctx):
     cells = rslmod.coverage_cells(q)
     if q:   # quick: orders up to NNLO everywhere, N3LO on the massless NC/CC F2 cells only
         cells = [dict(c, pto=min(c["pto"], 2), ptoEvol=min(c["ptoEvol"], 2)) if not (c["fns"] == "ZM-VFNS" and c["kind"] == "F2") else c for c in cells]
+    # the order of the EVOLUTION (card key PTO) below the order of the coefficient functions (PTODIS): every order up to PTODIS
+    # is still there (Kernels.tla: the active orders are 0..pto, ptoEvol only selects the asymptotic towers)
+    evol = [dict(c, ptoEvol=0, hist="evol0") for c in cells if c["fns"] == "ZM-VFNS" and c["kind"] in ("F2", "FL") and c["proc"] == "NC"][:2 if q else 4]
+    evol += [dict(c, ptoEvol=1, hist="evol1") for c in cells if c["fns"] == "FFNS" and c["kind"] == "F2" and c["proc"] == "NC" and c["pto"] >= 2][:1 if q else 3]
+    cells = cells + evol
     res = ctx.pmap(cell_job, [(c, xs) for c in cells], chunksize=1)
     # history in FRESH processes: the very first grid a process sees is coarser / finer than the one under test
     hist = [c for c in cells if c["fns"] == "ZM-VFNS" and c["kind"] in ("F2", "F3") and c["nf"] == 3][:2 if q else 4]
